@@ -23,7 +23,8 @@ more={'C01-F':['C14','C11'],'C04-F':['C18'],'C05-E':['C19'],'C06-F':['C10'],'C07
       'C01-K':['C02'],'C03-K':['C02'],'C14-L':['C02'],'C01-L':['C12'],'C02-L':['C11'],'C04-K':['C19'],'C05-K':['C11'],'C05-L':['C04'],'C12-K':['C05'],'C12-L':['C02'],'C20-L':['C14'],'C15-K':['C03'],
       'C07-M':['C20'],'C13-N':['C12'],'C05-M':['C18','C04'],'C18-N':['C11','C05'],'C18-M':['C04'],'C09-N':['C19'],'C02-N':['C06'],'C09-M':['C04'],'C19-N':['C07'],'C12-N':['C06'],'C01-M':['C06'],'C01-N':['C06'],'C05-N':['C12'],
       'C01-O':['C06','C02'],'C01-P':['C13'],'C05-O':['C13'],'C05-P':['C12'],'C09-O':['C18'],'C09-P':['C18','C04'],'C10-P':['C02'],'C11-P':['C19','C05'],'C15-O':['C20'],'C15-P':['C03'],'C07-P':['C12'],
-      'C05-Q':['C06'],'C05-R':['C18','C04'],'C06-Q':['C11','C02'],'C07-Q':['C13'],'C09-Q':['C18'],'C09-R':['C13'],'C11-Q':['C14'],'C12-Q':['C07'],'C15-Q':['C14'],'C15-R':['C03'],'C18-R':['C04']}
+      'C05-Q':['C06'],'C05-R':['C18','C04'],'C06-Q':['C11','C02'],'C07-Q':['C13'],'C09-Q':['C18'],'C09-R':['C13'],'C11-Q':['C14'],'C12-Q':['C07'],'C15-Q':['C14'],'C15-R':['C03'],'C18-R':['C04'],
+      'C01-S':['C02'],'C02-S':['C06'],'C09-S':['C04'],'C09-T':['C04'],'C13-S':['C19'],'C15-T':['C02','C03'],'C04-T':['C18'],'C05-T':['C19'],'C12-S':['C07'],'C11-S':['C06']}
 for c in more.get(sid,[]):
     if c not in checks: checks.append(c)
 print(','.join(checks))
